@@ -131,10 +131,10 @@ def run_impl(case):
                 rstb, wstb = int("r" in k), int("w" in k)
             elif mode == "txn" and cur:
                 rstb = wstb = 0
-            wdata = rnd.getrandbits(dw)
+            wdata = lib.bits(rnd, dw)
             rv = []
             for r in regs:
-                v = rnd.getrandbits(r.element.width) if r.element.width else 0
+                v = lib.bits(rnd, r.element.width) if r.element.width else 0
                 rv.append(v)
                 if r.element.access.readable():
                     ctx.set(r.element.r_data, v)
